@@ -1,5 +1,6 @@
 //! Runtime library linked into every generated probe program: event log, move-only
 //! tokens, plan table, probes, gates, executors, reference model, monitors, driver.
+pub mod alloc;
 pub mod aprobes;
 pub mod desc;
 pub mod driver;
